@@ -218,4 +218,16 @@ def parActs (P ticks : Nat) (shut : Bool) (c0 k base : Nat) : List Act :=
 def parBatch (cfg : Cfg) (P ticks : Nat) (shut : Bool) (c0 k : Nat) (s : Sys) : Sys :=
   settle cfg (run cfg s (parActs P ticks shut c0 k s.workers.length))
 
+/-- cmd/simfinetune `FitnessFunction`, n evaluations: each starts `w` pool workers (call id c0+j·(R+1)),
+    runs R sequential simulations (ids following it) and then sends the exit tokens (`shutPool`: does
+    the code send as many tokens as it started workers?); everything settles before the next one -/
+def poolBatch (cfg : Cfg) (P ticks : Nat) (shut shutPool : Bool) (w R c0 : Nat) : Nat → Sys → Sys
+  | 0, s => s
+  | n + 1, s =>
+    let s0 := poolBatch cfg P ticks shut shutPool w R c0 n s
+    let c := c0 + n * (R + 1)
+    let s1 := run cfg s0 [.spawn c .pool w]
+    let s2 := seqBatch cfg P ticks shut (c + 1) R s1
+    settle cfg (run cfg s2 (if shutPool then [.shutdown c] else []))
+
 end BMV.Lifecycle
